@@ -142,7 +142,7 @@ pub fn run(ctx: &mut Ctx) {
         }
         ctx.exhaustive.insert("all pairs of lists of length<=3 over a 4-element pool".into(), !ctx.miri);
     }
-    let n = ctx.budget(150_000, 5_000_000);
+    let n = ctx.budget(1_000_000, 20_000_000);
     for _ in 0..n {
         if !ctx.next_case() {
             return;
